@@ -296,7 +296,9 @@ def run(ctx):
         "translator harness/cmd/trans/parse_tables.go (token constants, keywords, precedences, LOWEST..CALL, prefix/infix/postfix registrations with the explicit flag, assignmentOperators, isDeclarationToken -> Gen/TokenTypes.v, Gen/ParserTables.v)",
         "harness/cmd/implrun/parse.go (projection of the Go AST; the significant token stream = real lexer re-run and filtered as Parser.ReadPeek does; slice Tokenizer for the malformed stream; error class from the message prefix)",
         "strconv.ParseFloat is an oracle of the model (accept / reject of the literal handed to it, answered by the Go side); the float VALUE is not modelled",
-        "modelled not verified: Model/Parse*.v is a hand transcription of parser/*.go over token lists (comments, positions, Meta not modelled), tied by the differential run below",
+        "translator harness/cmd/trans/parse_dispatch.go (switch statements of ParseStatement / ParseSnippetVCL / Parse -> Gen/ParserDispatch.v)",
+        "harness/cmd/implrun/parse_comments.go (raw lexer tokens, the metas Parser.CurToken() shows, reflection walk over every ast.Meta of the tree)",
+        "modelled not verified: Model/Parse*.v is a hand transcription of parser/*.go over token lists (Model/ParseComments.v: ReadPeek over the raw stream; positions, Meta.ID and the tree-level redistribution of comments not modelled), tied by the differential runs below",
         "gen/parsegen.py: the intended tree is computed from a hand copy of the documented precedence table",
     ]
 
@@ -451,14 +453,15 @@ def run(ctx):
 
     # ------------------------------------------------------------- phase C sources: commented programs
     csrc = []
+    gen_c = [c for c in cases if c[0] != "expr" and c[2].startswith(("gen-", "nested-"))]
+    n_c = 6000 if thorough else 800
+    for c in (rng.sample(gen_c, n_c) if len(gen_c) > n_c else gen_c):     # every generator family, commented
+        csrc.append((c[2] + "+comments", commentize(rng, c[1].decode("utf-8", "replace"), rng.choice([0.1, 0.25, 0.5])).encode()))
     for c in cases:
-        if c[0] != "expr" and (not c[2].startswith("gen-") or len(csrc) < (6000 if thorough else 900)):
-            if c[2].startswith(("gen-", "nested-")):
-                csrc.append((c[2] + "+comments", commentize(rng, c[1].decode("utf-8", "replace"), rng.choice([0.1, 0.25, 0.5])).encode()))
-            else:
-                csrc.append((c[2], c[1]))
-                if c[2] == "directed":
-                    csrc.append((c[2] + "+comments", commentize(rng, c[1].decode("utf-8", "replace"), 0.5).encode()))
+        if c[0] != "expr" and not c[2].startswith(("gen-", "nested-")):
+            csrc.append((c[2], c[1]))
+            if c[2] == "directed":
+                csrc.append((c[2] + "+comments", commentize(rng, c[1].decode("utf-8", "replace"), 0.5).encode()))
     for src in COMMENT_DIRECTED:
         csrc.append(("comment-directed", src.encode()))
     n_cases = len(cases)
